@@ -17,7 +17,7 @@ UNIT = "diag"
 PINNED = [
     "lookup_latest", "lookup_prefix", "lookup_unsorted_refuted",
     "excerpt_quotes_lines", "excerpt_total", "excerpt_panics_refuted",
-    "trace_shape", "trace_order", "trace_caught",
+    "trace_shape", "trace_order", "trace_caught", "trace_matches_call_stack", "dedup_trace_refuted",
     "debug_prefix_line",
     "span_stack_balanced", "op_span_owner", "span_leak_refuted",
     "fault_ip_current", "resume_without_refresh_refuted",
@@ -60,7 +60,7 @@ def gen_stmt(P, ind, ints, scope, allow_debug=True):
     """appends one statement of a random kind at indentation `ind` (a string of spaces);
     `ints`: names of int-valued locals usable here (extended in place)"""
     rng = P.rng
-    k = rng.below(34)
+    k = rng.below(39)
     i2 = ind + "  "
     i4 = ind + "    "
     e = lambda: int_expr(rng, ints)
@@ -147,6 +147,19 @@ def gen_stmt(P, ind, ints, scope, allow_debug=True):
         return done("closure-multiline", [f"{ind}{g} = |p, q = 2|", f"{i2}r = [", f"{i4}p,", f"{i4}q,", f"{i2}]", f"{i2}\"{{r[0]}}:", "^3}\"", f"{ind}{v} = {g}(1)"])
     if k == 32:
         return done("whitespace-line", [ind + "  "])
+    # tokens that contain line breaks, with LF and with CR LF INSIDE the token even when the file's own line ends are
+    # LF (each kind of multi-line token has its own line counting code in the lexer)
+    cr = "\r" if rng.chance(1, 2) else ""
+    if k == 34:
+        return done("multiline-raw-string" + ("-crlf" if cr else ""), [f"{ind}{v} = r'alpha{cr}", f"beta {{x}}{cr}", "gamma'"])
+    if k == 35:
+        return done("multiline-raw-string-hash" + ("-crlf" if cr else ""), [f"{ind}{v} = r#'al'pha{cr}", f"  beta'#"])
+    if k == 36:
+        return done("multiline-string" + ("-crlf" if cr else ""), [f"{ind}{v} = \"abc{cr}", f"{i4}def {{{e()}}}{cr}", "  ghi\""])
+    if k == 37:
+        return done("multiline-comment" + ("-crlf" if cr else ""), [f"{ind}#- a comment{cr}", f"over {rng.below(9)} lines{cr}", f"{ind}-#"])
+    if k == 38:
+        return done("format-newline-fill" + ("-crlf" if cr else ""), [f"{ind}{v} = \"{{{e()}:{cr}", "<3}\""])
     return done("trailing-comment", [f"{ind}{v} = {e()} # trailing"], v)
 
 
@@ -422,7 +435,7 @@ def gen_program(rng, depth=None, fault=None, nstmts=None, forms=None, crlf=False
     for k in range(depth, 0, -1):
         expect += call_offsets[k]
     nl = "\r\n" if crlf else "\n"
-    src = nl.join(P.lines) + (nl if rng.chance(3, 4) else "")
+    src = nl.join(l.rstrip("\r") if crlf else l for l in P.lines) + (nl if rng.chance(3, 4) else "")
     dbg = list(P.debugs.get(0, []))
     for k in range(1, depth + 1):
         dbg += P.debugs.get(k, [])
@@ -436,6 +449,98 @@ def gen_program(rng, depth=None, fault=None, nstmts=None, forms=None, crlf=False
     if fault in KNOWN_FAULTS:
         out["known"] = KNOWN_FAULTS[fault]
     return out
+
+
+# ---- recursion: traces whose adjacent frames are legitimately identical (same chunk, same call instruction)
+REC_SHAPES = ["single-site", "in-loop", "two-sites", "in-if-else", "adaptor-callback", "generator", "via-outer"]
+REC_FAULTS = ["throw", "index", "binop", "assert", "argcount", "not-callable"]
+
+
+def gen_recursive(rng, shape=None, fault=None, depth=None, nstmts=None, crlf=False, fail_at=None):
+    """a function that calls itself `depth` times before the planted fault fires at recursion level `fail_at`
+    (counting down from `depth`); the expected trace has ONE entry per active call, innermost first"""
+    P = Prog(rng)
+    shape = rng.choice(REC_SHAPES) if shape is None else shape
+    fault = rng.choice(REC_FAULTS) if fault is None else fault
+    depth = 2 + rng.below(5) if depth is None else depth      # number of recursive calls on the stack when it fails
+    tag = rng.below(1000)
+    nst = (lambda: rng.below(3)) if nstmts is None else (lambda: nstmts)
+    top_ints = []
+    P.emit(["hlp = |p, q| p"])
+    for _ in range(nst()):
+        gen_stmt(P, "", top_ints, 0)
+    P.emit(["rec = |lvl|"])
+    ints = ["lvl"]
+    n_debug = 0
+    if rng.chance(1, 2):
+        P.emit(["  debug lvl"])
+        dbg_line = len(P.lines) - 1
+        n_debug = 1
+    for _ in range(nst()):
+        gen_stmt(P, "  ", ints, -1, allow_debug=False)
+    P.emit(["  if lvl == 0"])
+    ls, off = fault_lines(fault, "    ", "lvl", tag, "hlp")
+    at = P.emit(ls)
+    fault_line = at + off
+    for _ in range(nst()):
+        gen_stmt(P, "  ", ints, -1, allow_debug=False)
+    plain, crossing = True, False
+    per_level = None            # function: level n (depth..1) -> frame lines contributed by the call made at level n
+    if shape in ("single-site", "via-outer"):
+        at = P.emit(["  rec lvl - 1"])
+        per_level = lambda n, at=at: [at]
+    elif shape == "in-loop":
+        at = P.emit(["  for i in 0..2", "    r = rec lvl - 1", "  r"])
+        per_level = lambda n, at=at: [at + 1]
+    elif shape == "two-sites":
+        at = P.emit(["  if lvl % 2 == 0", "    return rec lvl - 1", "  rec(lvl - 1)"])
+        per_level = lambda n, at=at: [at + 1] if n % 2 == 0 else [at + 2]
+    elif shape == "in-if-else":
+        at = P.emit(["  r = if lvl > 100", "    0", "  else", "    1 + rec(lvl - 1)", "  r"])
+        per_level = lambda n, at=at: [at + 3]
+    elif shape == "adaptor-callback":
+        at = P.emit(["  r = (0..1).each(|i| rec lvl - 1).to_list()", "  r"])
+        per_level = lambda n, at=at: [at, at, at]
+        plain = False
+    elif shape == "generator":
+        at = P.emit(["  for x in rec lvl - 1", "    yield x", "  yield lvl"])
+        per_level = lambda n, at=at: [at]
+        plain, crossing = False, True
+    else:
+        raise ValueError(shape)
+    for _ in range(nst()):
+        gen_stmt(P, "", top_ints, 0)
+    outer = []
+    if shape == "via-outer":
+        at = P.emit(["run = |a|", f"  rec {depth}", "run 1"])
+        outer = [at + 1, at + 2]
+    elif shape == "generator":
+        at = P.emit([f"for x in rec {depth}", "  y = x"])
+        outer = [at]
+    else:
+        at = P.emit([f"res = rec {depth}"])
+        outer = [at]
+    for _ in range(rng.below(2)):
+        gen_stmt(P, "", top_ints, -1, allow_debug=False)
+    expect = [fault_line]
+    for n in range(1, depth + 1):          # innermost call was made at level 1, outermost at level `depth`
+        expect += per_level(n)
+    expect += outer
+    nl = "\r\n" if crlf else "\n"
+    src = nl.join(l.rstrip("\r") if crlf else l for l in P.lines) + (nl if rng.chance(3, 4) else "")
+    dbg = list(P.debugs.get(0, []))
+    if n_debug:
+        if shape == "in-loop" or shape == "adaptor-callback":
+            pass      # the loop / callback body runs once before failing: still one debug per level
+        dbg += [(dbg_line, "lvl")] * (depth + 1)
+    dbg = [(l, x.replace("\n", nl)) for l, x in dbg]
+    classes = FAULTS[fault]
+    if classes is None:
+        classes = {f'EThrown(s"boom{tag}")'}
+    P.kinds.add("recursion:" + shape)
+    return {"m": "run", "src": src, "expect": expect, "fault": fault, "classes": sorted(classes), "debug": dbg,
+            "plain": plain, "crossing": crossing, "depth": depth, "kinds": sorted(P.kinds), "crlf": crlf,
+            "recursion": shape}
 
 
 # ---- token-broken programs: one mutation of a simple statement on a known line
@@ -488,7 +593,7 @@ def gen_broken(rng, kind=None, crlf=False):
     if in_fn:
         P.emit(["fn 1"])
     nl = "\r\n" if crlf else "\n"
-    src = nl.join(P.lines) + (nl if rng.chance(3, 4) else "")
+    src = nl.join(l.rstrip("\r") if crlf else l for l in P.lines) + (nl if rng.chance(3, 4) else "")
     return {"m": "run", "src": src, "broken_line": line, "mutation": kind, "crlf": crlf, "kinds": sorted(P.kinds)}
 
 
@@ -807,11 +912,14 @@ def gen_excerpt_cases(tier, rng):
     cases = []
     import itertools
     # exhaustive tiny texts x tiny spans
-    texts = [""] + ["".join(t) for k in (1, 2, 3) for t in itertools.product(["a", "\n", "\r"], repeat=k)]
+    texts = [""] + ["".join(t) for k in ((1, 2) if tier == "quick" else (1, 2, 3))
+                    for t in itertools.product(["a", "\n", "\r"], repeat=k)]
+    if tier == "quick":
+        texts += ["a\n\n", "\n\na", "a\r\n", "\r\na", "a\na", "\n\r\n", "\r\n\n", "\n\n\n"]
     for t in texts:
         for sl, sc, el, ec in itertools.product(range(3), range(2), range(3), range(2)):
             cases.append(("excerpt-exhaustive", {"m": "excerpt", "src": t, "span": [sl, sc, el, ec]}))
-    nrand = 1500 if tier == "quick" else 30000
+    nrand = 1000 if tier == "quick" else 30000
     for _ in range(nrand):
         t = "".join(rng.choice(EXC_ALPHA) for _ in range(rng.below(24)))
         nl = t.count("\n") + 2
@@ -883,6 +991,16 @@ def gen_run_cases(tier, seed):
     for fk in FAULT_KINDS:
         cases.append(("generator-exhaustive", gen_program(rng, depth=1, fault=fk, nstmts=0, gens={1: "after-yield"},
                                                           consumers=[rng.choice(CONSUMERS)])))
+    # recursion: every shape x failing with 2..6 identical call frames on the stack x three ways of failing
+    for shape in REC_SHAPES:
+        for d in range(2, 7):
+            cases.append(("recursion-exhaustive", gen_recursive(rng, shape=shape, depth=d, nstmts=0,
+                                                                fault=REC_FAULTS[d % len(REC_FAULTS)])))
+        for fk in ("throw", "index", "assert"):
+            cases.append(("recursion-exhaustive", gen_recursive(rng, shape=shape, depth=3, nstmts=0, fault=fk)))
+    nr = 60 if tier == "quick" else 1500
+    for _ in range(nr):
+        cases.append(("recursion-random", gen_recursive(rng, crlf=rng.chance(1, 6))))
     for mk in MUT_KINDS:
         cases.append(("broken-exhaustive", gen_broken(rng, kind=mk)))
     nf = 500 if tier == "quick" else 12000
@@ -890,16 +1008,16 @@ def gen_run_cases(tier, seed):
         plain = rng.chance(1, 2)
         cases.append(("fault-random", gen_program(rng, forms=["plain", "parens", "in-expr", "in-if", "in-for",
                                                                "multiline-args", "in-list", "pipe", "in-expr-multiline"] if plain else None,
-                                                  gens={} if plain else None, crlf=rng.chance(1, 10))))
+                                                  gens={} if plain else None, crlf=rng.chance(1, 6))))
     nb = 250 if tier == "quick" else 6000
     for i in range(nb):
-        cases.append(("broken-random", gen_broken(rng, crlf=rng.chance(1, 10))))
+        cases.append(("broken-random", gen_broken(rng, crlf=rng.chance(1, 6))))
     # programs cut off at an arbitrary character (with and without a final line break): the error sits at the end
     # of the text, where `lines()` and the lexer's line count can differ; the line of the first bad token is not
     # well-defined here, so only "inside the text", "renders without panic" and "quotes its lines" are checked
     nt = 40 if tier == "quick" else 1500
     for i in range(nt):
-        src = gen_program(rng, crlf=rng.chance(1, 10))["src"]
+        src = gen_program(rng, crlf=rng.chance(1, 6))["src"]
         for _ in range(6):
             k = rng.below(len(src) + 1)
             for tail in ("", "\n"):
@@ -960,7 +1078,10 @@ def run(tier, seed):
         chk.log("axioms outside the allowlist: " + ", ".join(pr["bad_axioms"]))
     axioms = pr["axioms"]
 
+    import time as _t
+    phases = {"coq-theorems": round(_t.time() - chk.t0, 1)}
     binp, blog = C.build_harness("kh_diag")
+    phases["cargo"] = round(_t.time() - chk.t0, 1)
     if not binp:
         chk.log("harness build failed:\n" + blog[-3000:])
         chk.violation("build", {"kind": "obligation", "correspondence": "kh_diag does not build against the koto checkout",
@@ -1019,6 +1140,7 @@ def run(tier, seed):
         chk.oblige("corr:SourceMap model vs DebugInfo::push/get_source_span", n_sm == 0, f"{n_sm} disagreements")
         chk.oblige("corr:Excerpt model vs format_source_excerpt (text and panic class)", n_ex == 0, f"{n_ex} disagreements")
 
+    phases["unit-correspondence"] = round(_t.time() - chk.t0, 1)
     # ---- D (+ R for Trace / debug prefix / excerpt on real spans): programs
     run_cases = gen_run_cases(tier, seed)
     res, err = run_harness(binp, [{"m": "run", "src": c["src"]} for _, c in run_cases], "run")
@@ -1027,7 +1149,7 @@ def run(tier, seed):
         return chk.finish("n/a")
     terms = []
     term_of = []              # (case index, what, real value)
-    budget = {"excerpt": 250, "debug": 60} if tier == "quick" else {"excerpt": 5000, "debug": 1500}
+    budget = {"excerpt": 150, "debug": 50} if tier == "quick" else {"excerpt": 5000, "debug": 1500}
     kinds_seen = {}
     known_hit = set()
     for i, ((origin, c), r) in enumerate(zip(run_cases, res)):
@@ -1105,6 +1227,9 @@ def run(tier, seed):
     elif not model_ok:
         chk.oblige("corr:model available", False)
 
+    phases["programs"] = round(_t.time() - chk.t0, 1)
+    chk.notes.append("cumulative wall seconds per phase: " + json.dumps(phases))
+    chk.log("phases (cumulative s): " + json.dumps(phases))
     # generator validity: the planted fault must be what fires
     nrun = len(run_cases)
     chk.oblige("gen:planted faults fire / mutants are rejected (>= 97% of generated programs)",
